@@ -32,6 +32,10 @@ func GenOpts(rng *rand.Rand, k int) Opts {
 		o.QTIgnoreWhile = true // secondary configuration
 	}
 
+	if (o.T == "finalizers" || o.QT) && !o.QTIgnoreWhile && k%4 == 1 {
+		o.PostponeRemoval = true // the user's finalizer-removal function postpones until after the first quiescent point
+	}
+
 	return o
 }
 
